@@ -20,6 +20,7 @@ package runtime
 
 import (
 	stdErrors "errors"
+	"sync"
 	"time"
 
 	"github.com/onflow/cadence"
@@ -33,7 +34,10 @@ import (
 
 type Program struct {
 	interpreterProgram *interpreter.Program
-	compiledProgram    *compiledProgram
+	// compileLock guards the lazy compilation of the program (compiledProgram):
+	// the embedder may share programs between concurrently running executions.
+	compileLock     sync.Mutex
+	compiledProgram *compiledProgram
 }
 
 type Script struct {
